@@ -26,7 +26,14 @@ def run_property(pid, tier, root=None, replay=None, list_findings=False, ctx=Non
         if key in ctx.cache:
             c = ctx.cache[key]
         else:
-            fn(ctx, c)
+            try:
+                fn(ctx, c)
+            except AnalysisError:
+                raise
+            except Exception as e:      # the rule met a shape it cannot handle: nothing is concluded for its remaining sites
+                import traceback as _tb
+                sys.stderr.write("rule %s stopped on an unexpected shape:\n%s\n" % (rid, _tb.format_exc()))
+                c.undecided("rule:%s" % rid, "rule-stopped(%s)" % type(e).__name__, "the rule could not analyse this code shape (%s); its remaining instances are not decided" % (str(e)[:80],))
             ctx.cache[key] = c
         insts += c.insts
         notes += ["%s: %s" % (rid, n) for n in c.notes]
